@@ -467,6 +467,22 @@ func (c *VCtx) execInstr(fr *Frame, st *State, in ssa.Instruction, incoming map[
 			fv.Binds = append(fv.Binds, fr.eval(b))
 		}
 		fr.env[x] = fv
+		if fr.contract != nil {
+			// ghost statements at "closure N" (N-th closure created by this function): closure denotes the new function value
+			fr.closures++
+			pt := fmt.Sprintf("closure %d", fr.closures)
+			for _, g := range fr.contract.Ghost {
+				if g.At == pt {
+					if fv.term == nil {
+						fv.term = c.freshRef(st, "fn")
+						fv.term.GT = fv.Fn.Signature
+						c.fnTerm(fv)
+					}
+					c.runGhost(fr, st, fr.contract, pt, map[string]Val{"closure": fv.term})
+					break
+				}
+			}
+		}
 		if ct := c.eng.ContractOf(fv.Fn); ct != nil && len(ct.ClosureInv) > 0 {
 			// facts about the captured variables that must hold whenever the closure runs: proved at creation
 			sc := c.contractScope(fv.Fn, ct, fv, nil, st, st, nil)
@@ -638,7 +654,7 @@ func (c *VCtx) loopHead(fr *Frame, li *loopInfo, st *State, phis []*ssa.Phi) {
 	}
 	// 2. havoc what the loop modifies
 	mods, all := c.modSet(fr.fn, li.body, 0)
-	c.ghostMods(fr, mods)
+	c.ghostModsIn(fr, mods, li.body)
 	if all {
 		c.havocAll(st)
 	} else {
@@ -800,12 +816,31 @@ func (c *VCtx) loopBack(fr *Frame, li *loopInfo, st *State, from *ssa.BasicBlock
 // ghostMods adds the ghost heaps that the frame's ghost statements may write (conservatively: all of them,
 // wherever they are attached).
 func (c *VCtx) ghostMods(fr *Frame, mods map[string]Sort) {
+	c.ghostModsIn(fr, mods, nil)
+}
+
+// ghostModsIn: as ghostMods, restricted (where the point can be located) to points inside the given blocks.
+func (c *VCtx) ghostModsIn(fr *Frame, mods map[string]Sort, body map[*ssa.BasicBlock]bool) {
 	if fr.contract == nil {
 		return
 	}
 	for _, g := range fr.contract.Ghost {
 		if g.At == "entry" || g.At == "exit" {
 			continue // executed once, outside every loop of the function
+		}
+		if body != nil && fr.fn != nil && strings.HasPrefix(g.At, "invoke ") {
+			// "invoke <Method>": only if such a call through an interface occurs inside the loop
+			inside := false
+			for b := range body {
+				for _, in := range b.Instrs {
+					if ci, ok := in.(ssa.CallInstruction); ok && ci.Common().IsInvoke() && ci.Common().Method.Name() == strings.TrimPrefix(g.At, "invoke ") {
+						inside = true
+					}
+				}
+			}
+			if !inside {
+				continue
+			}
 		}
 		lhs, _, _ := strings.Cut(g.Src, ":=")
 		lhs = strings.TrimSpace(lhs)
